@@ -3,8 +3,7 @@
 use winnow::{
     ascii::space0,
     combinator::{
-        alt, delimited, dispatch, fail, opt, peek, permutation, preceded, separated_foldl1,
-        terminated, trace,
+        alt, delimited, dispatch, fail, opt, peek, permutation, preceded, terminated, trace,
     },
     error::{FromExternalError, ParserError},
     stream::{AsChar, Stream, StreamIsPartial},
@@ -20,6 +19,19 @@ use super::{adaptor::ParseOptions, character::paren, error, primitive};
 /// The parser is recursive, so the depth needs a bound not to exhaust the stack.
 const MAX_EXPR_DEPTH: usize = 100;
 
+/// Maximum height of the syntax tree of a value expression.
+/// A chain of operators such as `1 + 2 + 3 + ...` is parsed with a loop,
+/// but it makes a tree as tall as the chain is long,
+/// and evaluating, printing or dropping the tree recurses once per level.
+/// The height needs a bound as well not to exhaust the stack there.
+const MAX_EXPR_HEIGHT: usize = 256;
+
+/// Returns the height of a tree with a child of the given `height`,
+/// or `None` if such a tree would be taller than [`MAX_EXPR_HEIGHT`].
+fn taller(height: usize) -> Option<usize> {
+    (height < MAX_EXPR_HEIGHT).then_some(height + 1)
+}
+
 /// Parses value expression.
 pub fn value_expr<'i, I, E>(input: &mut I) -> winnow::Result<expr::ValueExpr<'i>, E>
 where
@@ -27,7 +39,7 @@ where
     E: ParserError<I> + FromExternalError<I, pretty_decimal::Error>,
     <I as Stream>::Token: AsChar + Clone,
 {
-    nested_value_expr(input, 0)
+    nested_value_expr(input, 0).map(|(ve, _height)| ve)
 }
 
 impl<'i> TryFrom<&'i str> for expr::ValueExpr<'i> {
@@ -41,10 +53,12 @@ impl<'i> TryFrom<&'i str> for expr::ValueExpr<'i> {
 }
 
 /// Parses value expression already nested in `depth` parentheses.
+/// Returns the expression with the height of its syntax tree,
+/// as all the parsers of the expressions below do.
 fn nested_value_expr<'i, I, E>(
     input: &mut I,
     depth: usize,
-) -> winnow::Result<expr::ValueExpr<'i>, E>
+) -> winnow::Result<(expr::ValueExpr<'i>, usize), E>
 where
     I: Stream<Token = char, Slice = &'i str> + StreamIsPartial + Clone,
     E: ParserError<I> + FromExternalError<I, pretty_decimal::Error>,
@@ -54,13 +68,16 @@ where
         "expr::value_expr",
         dispatch! {peek(any);
             '(' => |i: &mut I| paren_expr(i, depth),
-            _ => amount.map(expr::ValueExpr::Amount),
+            _ => amount.map(|a| (expr::ValueExpr::Amount(a), 1)),
         },
     )
     .parse_next(input)
 }
 
-fn paren_expr<'i, I, E>(input: &mut I, depth: usize) -> winnow::Result<expr::ValueExpr<'i>, E>
+fn paren_expr<'i, I, E>(
+    input: &mut I,
+    depth: usize,
+) -> winnow::Result<(expr::ValueExpr<'i>, usize), E>
 where
     I: Stream<Token = char, Slice = &'i str> + StreamIsPartial + Clone,
     E: ParserError<I> + FromExternalError<I, pretty_decimal::Error>,
@@ -76,12 +93,12 @@ where
             |i: &mut I| add_expr(i, depth + 1),
             space0,
         ))
-        .map(expr::ValueExpr::Paren),
+        .verify_map(|(e, height)| Some((expr::ValueExpr::Paren(e), taller(height)?))),
     )
     .parse_next(input)
 }
 
-fn add_expr<'i, I, E>(input: &mut I, depth: usize) -> winnow::Result<expr::Expr<'i>, E>
+fn add_expr<'i, I, E>(input: &mut I, depth: usize) -> winnow::Result<(expr::Expr<'i>, usize), E>
 where
     I: Stream<Token = char, Slice = &'i str> + StreamIsPartial + Clone,
     E: ParserError<I> + FromExternalError<I, pretty_decimal::Error>,
@@ -110,7 +127,7 @@ where
     .parse_next(input)
 }
 
-fn mul_expr<'i, I, E>(input: &mut I, depth: usize) -> winnow::Result<expr::Expr<'i>, E>
+fn mul_expr<'i, I, E>(input: &mut I, depth: usize) -> winnow::Result<(expr::Expr<'i>, usize), E>
 where
     I: Stream<Token = char, Slice = &'i str> + StreamIsPartial + Clone,
     E: ParserError<I> + FromExternalError<I, pretty_decimal::Error>,
@@ -139,7 +156,7 @@ where
     .parse_next(input)
 }
 
-fn unary_expr<'i, I, E>(input: &mut I, depth: usize) -> winnow::Result<expr::Expr<'i>, E>
+fn unary_expr<'i, I, E>(input: &mut I, depth: usize) -> winnow::Result<(expr::Expr<'i>, usize), E>
 where
     I: Stream<Token = char, Slice = &'i str> + StreamIsPartial + Clone,
     E: ParserError<I> + FromExternalError<I, pretty_decimal::Error>,
@@ -149,7 +166,8 @@ where
         "expr::unary_expr",
         dispatch! {peek(any);
             '-' => |i: &mut I| negate_expr(i, depth),
-            _ => (|i: &mut I| nested_value_expr(i, depth)).map(|ve| expr::Expr::Value(Box::new(ve))),
+            _ => (|i: &mut I| nested_value_expr(i, depth))
+                .map(|(ve, height)| (expr::Expr::Value(Box::new(ve)), height)),
         },
     )
     .parse_next(input)
@@ -198,7 +216,7 @@ impl<'i> TryFrom<&'i str> for expr::Amount<'i> {
     }
 }
 
-fn negate_expr<'i, I, E>(input: &mut I, depth: usize) -> winnow::Result<expr::Expr<'i>, E>
+fn negate_expr<'i, I, E>(input: &mut I, depth: usize) -> winnow::Result<(expr::Expr<'i>, usize), E>
 where
     I: Stream<Token = char, Slice = &'i str> + StreamIsPartial + Clone,
     E: ParserError<I> + FromExternalError<I, pretty_decimal::Error>,
@@ -206,12 +224,15 @@ where
 {
     trace(
         "expr::negate_expr",
-        preceded(one_of('-'), |i: &mut I| nested_value_expr(i, depth)).map(|ve| {
-            expr::Expr::Unary(expr::UnaryOpExpr {
-                op: expr::UnaryOp::Negate,
-                expr: Box::new(expr::Expr::Value(Box::new(ve))),
-            })
-        }),
+        preceded(one_of('-'), |i: &mut I| nested_value_expr(i, depth)).verify_map(
+            |(ve, height)| {
+                let negated = expr::Expr::Unary(expr::UnaryOpExpr {
+                    op: expr::UnaryOp::Negate,
+                    expr: Box::new(expr::Expr::Value(Box::new(ve))),
+                });
+                Some((negated, taller(height)?))
+            },
+        ),
     )
     .parse_next(input)
 }
@@ -239,32 +260,52 @@ where
     .parse_next(input)
 }
 
-/// Parses `x (op x)*` format, and feed the list into the given function.
-/// This is similar to foldl, so it'll be evaluated as `f(f(...f(x, x), x), ... x)))`.
-/// operand parser needs to be Copy so that it can be used twice.
-fn infixl<'i, I, E, F, G>(operator: F, operand: G) -> impl Parser<I, expr::Expr<'i>, E>
+/// Parses `x (op x)*` format, and folds the operands into a left-deep tree,
+/// so it'll be `f(f(...f(x, x), x), ... x)))`.
+/// The operands come with their heights, and so does the result.
+/// It fails at the operator which would make the tree taller than [`MAX_EXPR_HEIGHT`],
+/// so that neither a tree nor a list longer than that is ever built.
+fn infixl<'i, I, E, F, G>(operator: F, mut operand: G) -> impl Parser<I, (expr::Expr<'i>, usize), E>
 where
     I: Stream + StreamIsPartial + Clone,
     E: ParserError<I>,
     F: Parser<I, expr::BinaryOp, E>,
-    G: Parser<I, expr::Expr<'i>, E>,
-    I: Stream + StreamIsPartial + Clone,
+    G: Parser<I, (expr::Expr<'i>, usize), E>,
     <I as Stream>::Token: AsChar,
 {
-    trace(
-        "infixl",
-        separated_foldl1(
-            operand,
-            delimited(space0, operator, space0),
-            |lhs, op, rhs| {
-                expr::Expr::Binary(expr::BinaryOpExpr {
-                    lhs: Box::new(lhs),
-                    op,
-                    rhs: Box::new(rhs),
-                })
-            },
-        ),
-    )
+    let mut operator = delimited(space0, operator, space0);
+    trace("infixl", move |input: &mut I| {
+        let (mut lhs, mut height) = operand.parse_next(input)?;
+        loop {
+            let start = input.checkpoint();
+            let op = match operator.parse_next(input) {
+                Err(e) if e.is_backtrack() => {
+                    input.reset(&start);
+                    return Ok((lhs, height));
+                }
+                Err(e) => return Err(e),
+                Ok(op) => op,
+            };
+            let (rhs, rhs_height) = match operand.parse_next(input) {
+                Err(e) if e.is_backtrack() => {
+                    input.reset(&start);
+                    return Ok((lhs, height));
+                }
+                Err(e) => return Err(e),
+                Ok(rhs) => rhs,
+            };
+            let Some(taller) = taller(std::cmp::max(height, rhs_height)) else {
+                input.reset(&start);
+                return Err(ParserError::from_input(input));
+            };
+            lhs = expr::Expr::Binary(expr::BinaryOpExpr {
+                lhs: Box::new(lhs),
+                op,
+                rhs: Box::new(rhs),
+            });
+            height = taller;
+        }
+    })
 }
 
 #[cfg(test)]
@@ -315,6 +356,39 @@ mod tests {
                 .parse_peek(input.as_str())
                 .expect_err("too deeply nested expression must be rejected");
         }
+    }
+
+    #[test]
+    fn value_expr_height_is_bounded() {
+        // n operands chained make a tree of height n, and the parentheses add one.
+        let chain = |n: usize, op: &str| format!("({})", vec!["1"; n].join(op));
+        // each `2 / 1` is a tree of height 2 on its own.
+        for (op, longest) in [
+            (" + ", MAX_EXPR_HEIGHT - 1),
+            ("*", MAX_EXPR_HEIGHT - 1),
+            (" - 2 / ", MAX_EXPR_HEIGHT - 2),
+        ] {
+            let input = chain(longest, op);
+            assert_eq!(expect_parse_ok(value_expr, &input).0, "");
+            // longer chain is a parse error rather than a stack overflow
+            for n in [longest + 1, 100_000] {
+                let input = chain(n, op);
+                value_expr::<_, winnow::error::ContextError>
+                    .parse_peek(input.as_str())
+                    .expect_err("too long chain of operators must be rejected");
+            }
+        }
+        // the height counts parentheses, negations and operators alike:
+        // each level of `(-x + 1 + 1)` is 4 taller than `x`.
+        let nested = |n: usize| format!("{}1{}", "(-".repeat(n), " + 1 + 1)".repeat(n));
+        let tallest = (MAX_EXPR_HEIGHT - 1) / 4;
+        assert!(tallest < MAX_EXPR_DEPTH);
+        let input = nested(tallest);
+        assert_eq!(expect_parse_ok(value_expr, &input).0, "");
+        let input = nested(tallest + 1);
+        value_expr::<_, winnow::error::ContextError>
+            .parse_peek(input.as_str())
+            .expect_err("too tall expression must be rejected");
     }
 
     #[test]
